@@ -278,6 +278,7 @@ class Theory:
 
         it = Iter(card, item, facts, "keys")
         it.seq = seq
+        it.pos = pos
         return it
 
     def assigned_names(self, stmts) -> List[str]:
@@ -388,8 +389,11 @@ class Theory:
                 st.assume(f)
         # 1. which locals / shared components does the body write?  (dry run from a generic state)
         mod_locals = [n for n in self.assigned_names(node.body + ([node.target] if is_for else [])) if True]
-        mod_locals = sorted(set(mod_locals) | set(self.method_mutated_locals(st, node.body)) | set(n for n in st.loc if n.startswith("$")))
+        ghosts = [n for n in st.loc if n.startswith("$")]
+        mod_locals = sorted(set(mod_locals) | set(self.method_mutated_locals(st, node.body)) | set(ghosts))
         mod_shared = self._discover_writes(st, fr, node, it, mod_locals)
+        # ghost locals ($...) are updated by spec hooks, not by syntax: only those the dry run saw changing are havocked
+        mod_locals = sorted((set(mod_locals) - set(ghosts)) | set(self._ghosts_written))
 
         def mk_generic(base: St, tag: str) -> Tuple[St, object]:
             s = base.fork()
@@ -479,6 +483,8 @@ class Theory:
                 probe.loc[n] = havoc_like(probe.loc[n], f"probe_{n}")
         self.havoc_shared(probe, keys, "probe")
         before = dict(probe.sh)
+        ghost_before = {n: v for n, v in probe.loc.items() if n.startswith("$")}
+        self._ghosts_written = set()
         saved_collect, ip.collect = ip.collect, False
         saved_loop_no, saved_await = fr.loop_no, fr.await_no
         changed = set()
@@ -502,6 +508,9 @@ class Theory:
                     for k in keys:
                         if not same_value(before[k], s2.sh[k]):
                             changed.add(k)
+                    for n, v0 in ghost_before.items():
+                        if n not in s2.loc or not same_value(v0, s2.loc[n]):
+                            self._ghosts_written.add(n)
         finally:
             ip.collect = saved_collect
             fr.loop_no, fr.await_no = saved_loop_no, saved_await
